@@ -11,15 +11,52 @@ import (
 	"bufio"
 	"bytes"
 	"fmt"
+	"math/rand"
 	"os"
 	"os/exec"
 	"path/filepath"
 	"regexp"
+	"sort"
 	"strings"
+	"sync"
 	"time"
 
 	"verif.local/harness/ev"
+	"verif.local/harness/sto"
 )
+
+// packWrites is what the system-call trace of the diskpacked child shows about the ORDER in which
+// one RemoveBlobs changes a pack file: "H" = the record header is rewritten (pwrite64 of the
+// xxxx-0000 marker), "Z" = the body is released (fallocate punch, or a write of zero bytes).  The
+// crash-state materialiser (packed.go) can see the pack only at the index-mutation instant; which
+// of header and body is changed first BETWEEN two such instants is taken from here, so that "what a
+// process death can leave" follows the code under test and is not assumed.
+type packWrites struct {
+	ready  chan struct{} // closed when the trace was evaluated (or cannot be had)
+	mu     sync.Mutex
+	orders map[string]int // "H,Z" / "Z,H" -> removes (of a present, non-empty blob) that showed it
+	other  map[string]int // any other pattern (not modelled)
+	source string
+}
+
+var packOrder = &packWrites{ready: make(chan struct{}), orders: map[string]int{}, other: map[string]int{}, source: "assumed (no system-call trace)"}
+
+// removeOrders waits for the trace and returns the observed relative orders of header rewrite and
+// body release ("HZ", "ZH"); without an observation the order of dele.go as it was read (header
+// first) is assumed and said so in the evidence.
+func (p *packWrites) removeOrders() (orders []string, source string) {
+	<-p.ready
+	p.mu.Lock()
+	defer p.mu.Unlock()
+	for k := range p.orders {
+		orders = append(orders, strings.ReplaceAll(k, ",", ""))
+	}
+	sort.Strings(orders)
+	if len(orders) == 0 {
+		return []string{"HZ"}, "assumed"
+	}
+	return orders, p.source
+}
 
 var (
 	reSysStart  = regexp.MustCompile(`^(\d+)\s+(write|pwrite64|fsync|fdatasync|fallocate)\((\d+)<([^>]*)>(.*)$`)
@@ -27,7 +64,31 @@ var (
 	reQuoted    = regexp.MustCompile(`^, "((?:[^"\\]|\\.)*)"`)
 )
 
-func syscallOrder(r *ev.Run, kind, scratch string) {
+var (
+	reDeletedMarker = regexp.MustCompile(`^x+-0*$`)
+	reZeros         = regexp.MustCompile(`^(\\0)+$`)
+)
+
+// probeBlobs are received and removed one by one at the end of the traced diskpacked child, so
+// that the trace shows a remove of a present blob for a spread of body sizes.
+var probeSizes = []int{1, 40, 300, 5000, 70000, 1 << 20}
+
+func addProbeBlobs(w *world, seed int64) {
+	rng := rand.New(rand.NewSource(seed ^ 0x70be))
+	for _, n := range probeSizes {
+		data := randBytes(rng, n)
+		data[0] |= 1 // never an all-zero body
+		w.Uni = append(w.Uni, sto.Blob{Ref: sto.RefOf("sha224", data), Data: data})
+	}
+}
+
+// syscallOrder traces one child.  observeOnly (a replay of another case): the trace is only read
+// for the pack write order of removes, the fsync-before-ack oracle is not evaluated.
+func syscallOrder(r *ev.Run, kind, scratch string, observeOnly bool) {
+	packedKind := strings.HasPrefix(kind, "diskpacked")
+	if packedKind {
+		defer close(packOrder.ready)
+	}
 	strace, err := exec.LookPath("strace")
 	if err != nil {
 		return
@@ -36,6 +97,9 @@ func syscallOrder(r *ev.Run, kind, scratch string) {
 	rng := r.Rand("syscall-order/" + kind)
 	wseed, oseed := rng.Int63(), rng.Int63()
 	w := killWorld(wseed)
+	if packedKind {
+		addProbeBlobs(w, wseed)
+	}
 	dir := filepath.Join(scratch, "so-"+kind)
 	os.MkdirAll(dir, 0o755)
 	defer os.RemoveAll(dir)
@@ -46,6 +110,9 @@ func syscallOrder(r *ev.Run, kind, scratch string) {
 	cmd := exec.Command(strace, "-f", "-y", "-s", "24", "-e", "trace=write,pwrite64,fsync,fdatasync,fallocate", "-o", tpath, exe)
 	cmd.Env = append(os.Environ(), "VERIF_CHILD=c03kill", "VERIF_WORKER=", "C03_STORE="+kind, "C03_DIR="+dir, "C03_JOURNAL="+jpath,
 		fmt.Sprintf("C03_WSEED=%d", wseed), fmt.Sprintf("C03_OSEED=%d", oseed), "C03_MAXOPS=40")
+	if packedKind {
+		cmd.Env = append(cmd.Env, "C03_ORDER_PROBE=1")
+	}
 	var out bytes.Buffer
 	cmd.Stdout, cmd.Stderr = &out, &out
 	done := make(chan error, 1)
@@ -75,6 +142,8 @@ func syscallOrder(r *ev.Run, kind, scratch string) {
 	dirtyOther := map[string]bool{}
 	var cur *hop
 	curNo := ""
+	var curPack []string // pack-file effects of the remove that is open, in trace order
+	removesSeen := 0
 	acks, recvAcks, fsyncs, dataWrites := 0, 0, 0, 0
 	idxDir := filepath.Join(dir, "idx") + string(filepath.Separator)
 	isData := func(p string) bool {
@@ -125,9 +194,31 @@ func syscallOrder(r *ev.Run, kind, scratch string) {
 				if len(fs) >= 4 && fs[0] == "B" {
 					cur, curNo = &hop{Recv: fs[2] == "R"}, fs[1]
 					fmt.Sscan(fs[3], &cur.B)
+					curPack = nil
 				} else if len(fs) >= 2 && fs[0] == "A" && cur != nil && fs[1] == curNo {
 					acks++
-					if cur.Recv {
+					if !cur.Recv && packedKind && len(curPack) > 0 {
+						// the order in which this acknowledged remove changed the pack
+						removesSeen++
+						pat := strings.Join(curPack, ",")
+						size := -1
+						if cur.B >= 0 && cur.B < len(w.Uni) {
+							size = len(w.Uni[cur.B].Data)
+						}
+						packOrder.mu.Lock()
+						switch {
+						case pat == "H,Z" || pat == "Z,H":
+							packOrder.orders[pat]++
+						case pat == "H" && size == 0:
+						default:
+							packOrder.other[pat]++
+						}
+						packOrder.mu.Unlock()
+						r.Note("observed_pack_write_order", fmt.Sprintf("remove (body %s): %s", sizeClass(size), pat))
+					}
+					if cur.Recv && observeOnly {
+						dirtyRecv = map[string]int{}
+					} else if cur.Recv {
 						recvAcks++
 						r.Eval(1)
 						for p, n := range dirtyRecv {
@@ -152,12 +243,43 @@ func syscallOrder(r *ev.Run, kind, scratch string) {
 				continue
 			}
 			dataWrites++
+			if cur != nil && !cur.Recv && strings.HasSuffix(path, ".blobs") && !strings.Contains(rest, "= -1 ") {
+				e := "?" + name
+				q := reQuoted.FindStringSubmatch(rest)
+				switch {
+				case name == "fallocate":
+					e = "Z"
+				case q != nil && name == "pwrite64" && reDeletedMarker.MatchString(q[1]):
+					e = "H"
+				case q != nil && reZeros.MatchString(q[1]):
+					e = "Z"
+				}
+				if n := len(curPack); n == 0 || curPack[n-1] != e {
+					curPack = append(curPack, e)
+				}
+			}
 			if cur != nil && cur.Recv {
 				dirtyRecv[path]++
 			} else {
 				dirtyOther[path] = true
 			}
 		}
+	}
+	if packedKind {
+		packOrder.mu.Lock()
+		if len(packOrder.orders) > 0 {
+			packOrder.source = "strace of the " + kind + " child"
+			r.Note("events", "remove-pack-order-observed")
+		}
+		for pat, n := range packOrder.other {
+			// the materialiser models one header rewrite and one body release per remove
+			r.Inconclusive(fmt.Sprintf("diskpacked remove changed the pack in a pattern the crash-state materialiser does not model: %q (%d removes; H = deleted-marker pwrite, Z = punch / zero fill)", pat, n))
+		}
+		packOrder.mu.Unlock()
+		r.Count("removes_with_pack_write_order_observed", removesSeen)
+	}
+	if observeOnly {
+		return
 	}
 	r.Extra("syscall_order_"+kind, map[string]int{"acks": acks, "receive_acks_checked": recvAcks, "fsyncs_seen": fsyncs, "blob_data_writes_seen": dataWrites})
 	if recvAcks > 0 && dataWrites > 0 {
@@ -179,6 +301,20 @@ func straceUsable() (bool, string) {
 		return false, fmt.Sprintf("%v: %s", err, firstLine(string(out)))
 	}
 	return true, ""
+}
+
+func sizeClass(n int) string {
+	switch {
+	case n < 0:
+		return "unknown"
+	case n == 0:
+		return "empty"
+	case n <= 4096:
+		return "<=4K"
+	case n <= 256<<10:
+		return "<=256K"
+	}
+	return ">256K"
 }
 
 func firstLine(s string) string {
